@@ -851,6 +851,33 @@ def gen_coords_kwargs(job, workdir):
 REJECT_TYPES = (IOError, OSError, NotImplementedError)
 
 
+class _PreCallTimeout(Exception):
+    pass
+
+
+def _bounded_call(fn, kwargs, seconds=10):
+    """earlier calls of a history run without the seams and caps of the observed call: a wall-clock bound keeps a build
+    that retries for ever (e.g. unsatisfiable restraints) from stalling the worker.  The earlier call then simply ends
+    early - it is part of the history either way."""
+    import signal
+
+    def _raise(_sig, _frm):
+        raise _PreCallTimeout()
+
+    try:
+        old = signal.signal(signal.SIGALRM, _raise)
+    except ValueError:            # not in the main thread: no bound available
+        return fn(**kwargs)
+    signal.setitimer(signal.ITIMER_REAL, seconds)
+    try:
+        return fn(**kwargs)
+    except _PreCallTimeout:
+        raise RuntimeError("earlier call stopped after its time bound")
+    finally:
+        signal.setitimer(signal.ITIMER_REAL, 0)
+        signal.signal(signal.SIGALRM, old)
+
+
 def _pre_call_spec(job, workdir, kw):
     from polyply.src.gen_coords import gen_coords
     from vermouth.file_writer import DeferredFileWriter
@@ -867,7 +894,7 @@ def _pre_call_spec(job, workdir, kw):
     cwd = os.getcwd()
     os.chdir(workdir)
     try:
-        gen_coords(**kw2)
+        _bounded_call(gen_coords, kw2)
     except Exception:
         try:
             DeferredFileWriter().close()
@@ -898,7 +925,7 @@ def _pre_call_build(job, workdir, kw):
     cwd = os.getcwd()
     os.chdir(workdir)
     try:
-        gen_coords(**kw2)
+        _bounded_call(gen_coords, kw2)
     except Exception:
         try:
             DeferredFileWriter().close()
@@ -925,7 +952,7 @@ def _pre_call(job, workdir, kw):
     cwd = os.getcwd()
     os.chdir(workdir)
     try:
-        gen_coords(**kw2)
+        _bounded_call(gen_coords, kw2)
     except Exception:
         try:
             DeferredFileWriter().close()
